@@ -271,7 +271,7 @@ func runC11(w *World) *Result {
 	r.Explanation = "Decides structural conditions of faithful tokenisation from the lexer's syntax tree, types and regex syntax trees (regexp/syntax): (table) in the first-match punctuation table a longer entry precedes every entry that is its proper prefix, and every token type the parser tests for is producible; (regex) every probe applied to the rest of the input is ^-anchored, a probe that can match identifier-like words ends in a word boundary, a comment probe with an explicit terminator is non-greedy; (bytes) no byte→string conversion (re-encodes bytes ≥ 0x80); (pos) every arm that can consume a newline updates the row counter; (errors) unterminated string / unknown character arms end in an error."
 	r.NotDecided = "equality with a reference scanner over all character sequences (needs execution); multi-character escapes such as \\x41 / \\u00e9 are rejected by the pair-wise escape decoder (recorded finding)."
 	r.Rule("R-C11-table", "punctuation table: longer-before-prefix; parser-tested token types are producible", 10)
-	r.Rule("R-C11-regex", "probes: anchored; identifier-like probes end in \\b; terminated comment probe non-greedy", 5)
+	r.Rule("R-C11-regex", "probes: anchored; identifier-like probes end in \\b; terminated comment probe non-greedy", 3)
 	r.Rule("R-C11-bytes", "no uint8→string conversion in the lexer; the one-character accessor returns the character at every position below the length", 2)
 	CharAccessRule(w, r, "R-C11-bytes")
 	r.Rule("R-C11-pos", "arms that can consume \\n assign the row counter, and compute every position update from the consumed source text (not the decoded value)", 5)
